@@ -369,8 +369,11 @@ package mqtt
 //@ ensures !r1 ==> r0 == nil
 
 // verif:func mqtt.Server.UnsubscribeClient trusted
-//@ modifies subsview, nev, evkind, evcl, evid, all(system.Info.Subscriptions), entries(cl.State.Subscriptions.internal)
+//@ modifies subsview, nsubs, nev, evkind, evcl, evid, all(system.Info.Subscriptions), entries(cl.State.Subscriptions.internal)
 //@ ensures len(cl.State.Subscriptions.internal) == 0
+// the index entries of the client id are removed only if the client has not been marked as taken over
+//@ ensures !old(cl.State.isTakenOver.abool) ==> (forall f string :: !subsview[cl.ID][f])
+//@ ensures old(cl.State.isTakenOver.abool) ==> subsview == old(subsview)
 
 // verif:func mqtt.Client.ClearInflights trusted
 //@ modifies entries(cl.State.Inflight.internal), nev, evkind, evcl, evid, all(system.Info.Inflight)
@@ -402,6 +405,7 @@ package mqtt
 //@ ensures C14-session-present-exactly-when-resumed: r0 <==> (old(has(s.Clients.internal, cl.ID)) && !pk.Connect.Clean && !(old(s.Clients.internal[cl.ID].Properties.Clean) && old(s.Clients.internal[cl.ID].Properties.ProtocolVersion) < 5))
 //@ ensures C14-old-connection-disconnected-with-takeover-code: old(has(s.Clients.internal, cl.ID)) ==> old(s.Clients.internal[cl.ID]).stopped && old(s.Clients.internal[cl.ID]).disccode == 142
 //@ ensures C14-clean-start-leaves-nothing: old(has(s.Clients.internal, cl.ID)) && !r0 ==> len(old(s.Clients.internal[cl.ID]).State.Inflight.internal) == 0 && len(old(s.Clients.internal[cl.ID]).State.Subscriptions.internal) == 0
+//@ ensures C14-clean-start-leaves-no-index-entry: old(has(s.Clients.internal, cl.ID)) && !r0 && !old(s.Clients.internal[cl.ID].State.isTakenOver.abool) ==> (forall f string :: !subsview[cl.ID][f])
 //@ ensures C09-resume-keeps-unacknowledged-messages: r0 && old(len(s.Clients.internal[cl.ID].State.Inflight.internal)) > 0 ==> (forall k uint16 :: (has(ifl(cl), k) <==> old(has(s.Clients.internal[cl.ID].State.Inflight.internal, k))) && ifl(cl)[k] == old(s.Clients.internal[cl.ID].State.Inflight.internal[k]))
 //@ ensures C11-send-quota-from-the-new-connection: r0 && old(len(s.Clients.internal[cl.ID].State.Inflight.internal)) > 0 && cl.ops.options.Capabilities.ReceiveMaximum != 0 ==> cl.State.Inflight.maximumSendQuota == int32(cl.Properties.Props.ReceiveMaximum) && cl.State.Inflight.maximumReceiveQuota == int32(cl.ops.options.Capabilities.ReceiveMaximum)
 //@ ensures C14-no-session-no-effect: !old(has(s.Clients.internal, cl.ID)) ==> !r0 && cl.State.Inflight == old(cl.State.Inflight)
